@@ -29,11 +29,12 @@ type Log struct {
 	Addr   []byte // emitting contract
 	Topics [][]byte
 	Data   []byte
-	Kind   string // transfer | created | decoy-topic | decoy-count
-	From   []byte // transfer
-	To     []byte // transfer
-	Value  uint64 // transfer
-	Made   []byte // created
+	Kind   string   // transfer | created | decoy-topic | decoy-count
+	From   []byte   // transfer
+	To     []byte   // transfer
+	Value  uint64   // transfer
+	Made   []byte   // created
+	Tags   []string // tags: the elements of the string[] argument
 }
 
 type Trace struct {
@@ -110,7 +111,33 @@ const (
 	SigTransfer = "Transfer(address,address,uint256)"
 	SigCreated  = "Created(address)"
 	SigApproval = "Approval(address,address,uint256)"
+	SigTags     = "Tags(string[])"
 )
+
+// encodeStringArray is the ABI encoding of one dynamic argument of type string[].
+func encodeStringArray(xs []string) []byte {
+	pad := func(b []byte) []byte {
+		for len(b)%32 != 0 {
+			b = append(b, 0)
+		}
+		return b
+	}
+	var tails [][]byte
+	for _, x := range xs {
+		tails = append(tails, append(wordU64(uint64(len(x))), pad([]byte(x))...))
+	}
+	out := wordU64(32)                             // offset of the array
+	out = append(out, wordU64(uint64(len(xs)))...) // its length
+	off := uint64(32 * len(xs))                    // element offsets count from the first offset word
+	for _, t := range tails {
+		out = append(out, wordU64(off)...)
+		off += uint64(len(t))
+	}
+	for _, t := range tails {
+		out = append(out, t...)
+	}
+	return out
+}
 
 func Topic0(sig string) []byte { return keccak([]byte(sig)) }
 
@@ -126,7 +153,8 @@ type GenOpts struct {
 	Traces    bool // generate trace actions
 	Created   bool // generate Created(address) logs (for filter_ref graphs)
 	Decoys    bool
-	EmptyProb int // percent of blocks with no transaction
+	Tags      bool // generate Tags(string[]) logs (1-4 elements, some of them empty strings)
+	EmptyProb int  // percent of blocks with no transaction
 	// AlwaysTrace: every block above 0 has a transaction and every transaction at
 	// least one trace action (jrpc2.traces treats an empty trace_block result as an error)
 	AlwaysTrace bool
@@ -179,6 +207,14 @@ func GenBlock(r *lib.RNG, tag int, num uint64, parent []byte, o GenOpts, st *Gen
 			logIdx++
 			k := r.Intn(100)
 			switch {
+			case o.Tags && k >= 50 && k < 80:
+				l.Kind, l.Addr = "tags", TokenAddr
+				words := []string{"", "a", "", "bb", "ccc", "", "a-longer-tag-that-needs-more-than-thirty-two-bytes-of-data"}
+				for n := r.Range(1, 4); n > 0; n-- {
+					l.Tags = append(l.Tags, words[r.Intn(len(words))])
+				}
+				l.Topics = [][]byte{Topic0(SigTags)}
+				l.Data = encodeStringArray(l.Tags)
 			case o.Created && k < 25:
 				st.nextNew++
 				l.Kind, l.Made, l.Addr = "created", Addr(1000+o.AddrBase+tag*100000+st.nextNew), TokenAddr
